@@ -20,6 +20,10 @@ def ph_grid(tier):
     for pk in T.PKA.values():
         g.update((pk - 1e-6, pk, pk + 1e-6))
     g.update((-1e-9, 0.0, 1e-9, 14 - 1e-9, 14.0, 14 + 1e-9, 7.4))
+    # the floats right next to the two bounds and far away from them (a range test folded into one expression loses them)
+    import math
+    g.update((math.nextafter(0.0, -1.0), -1e-300, 0.3 - 3 * 0.1, -1e-17, -4e-16, -1e-15, math.nextafter(14.0, 15.0), 14 + 4e-15,
+              math.nextafter(14.0, 0.0), math.nextafter(0.0, 1.0), -1e308, 1e308, float("inf"), float("-inf"), -14.0, 28.0, -7.0, 21.0))
     # every midpoint the isoelectric-point bisection can visit in its first four halvings
     g.update(14.0 * k / 16 for k in range(1, 16))
     return sorted(g)
